@@ -167,11 +167,11 @@ func checkC09(c *Ctx) error {
 		c.Eval(key, over)
 		for _, run := range []cli.Run{runA, runB} {
 			for _, b := range run.Contract() {
-				c.Violate("cli-contract:"+sigWords(b), b+"\n"+run.Res.Stdout, files)
+				c.Side("C10,C12", "cli-contract:"+sigWords(b), b+"\n"+run.Res.Stdout, files)
 			}
 		}
 		if runA.Res.Exit != 0 {
-			c.Violate("generator-config-rejected:"+sigWords(rejectReason2(runA)), "single-file form rejected: "+rejectReason2(runA), files)
+			rejected(c, rejectReason2(runA), "single-file form rejected: "+rejectReason2(runA), files)
 			return
 		}
 		files["stdout-split.txt"] = runB.Res.Stdout
